@@ -3,6 +3,7 @@ package world
 import (
 	"errors"
 	"fmt"
+	"math/big"
 	"strings"
 
 	sdkerrors "github.com/cosmos/cosmos-sdk/types/errors"
@@ -61,13 +62,60 @@ func (m *monC16) Step(h *History, st *Step) []Violation {
 		}
 		r := rec.Ref
 		h.Label("c16:batch-settled")
-		// published matched price
-		wantP := bigZero
-		if r.Sold {
-			wantP = r.PStarM
+		// what was actually transferred in the final settlement
+		f := flowsOfSettlement(st, a)
+		recv := map[string]*big.Int{}
+		distributed := new(big.Int)
+		for _, bd := range r.Bidders {
+			got := zeroIfNil(f.S[bd])
+			if bd == a.Auctioneer { // also receives the unsold remainder: take the reference allocation
+				got = zeroIfNil(r.Alloc[bd])
+			}
+			recv[bd] = got
+			distributed.Add(distributed, got)
 		}
-		if zeroIfNil(tr.Post.MatchedPriceM).Cmp(wantP) != 0 {
-			vs = append(vs, viol("C16/matched-price", "batch auction %d settled: published matched price %s, clearing price used %s (sold=%v, total %s)", a.ID, mOrNil(tr.Post.MatchedPriceM), mstr(wantP), r.Sold, r.Total))
+		// the clearing price that was used: a recorded bid price at which every bidder's capped demand
+		// equals what it received (there may be several; none when the allocation itself is wrong,
+		// which is C03's business, not C16's)
+		pub := zeroIfNil(tr.Post.MatchedPriceM)
+		var candidates []*big.Int
+		seen := map[string]bool{}
+		for _, b := range preBidsOf(st, tr.ID) {
+			if seen[b.PriceM.String()] {
+				continue
+			}
+			seen[b.PriceM.String()] = true
+			ok := true
+			for _, bd := range r.Bidders {
+				_, _, _, _, asked := PayBounds(rec.Bids, bd, rec.PayDenom, b.PriceM, recv[bd])
+				capped := bmin(asked, zeroIfNil(rec.Caps[bd]))
+				if capped.Cmp(recv[bd]) != 0 {
+					ok = false
+					break
+				}
+			}
+			if ok {
+				candidates = append(candidates, b.PriceM)
+			}
+		}
+		if distributed.Sign() == 0 {
+			if pub.Sign() != 0 {
+				vs = append(vs, viol("C16/matched-price", "batch auction %d settled and nothing was sold, but the published matched price is %s", a.ID, mstr(pub)))
+			}
+		} else {
+			inCand := false
+			for _, c := range candidates {
+				if c.Cmp(pub) == 0 {
+					inCand = true
+				}
+			}
+			if pub.Sign() == 0 || (len(candidates) > 0 && !inCand) {
+				var cs []string
+				for _, c := range candidates {
+					cs = append(cs, mstr(c))
+				}
+				vs = append(vs, viol("C16/matched-price", "batch auction %d settled and distributed %s coins; published matched price %s, the transfers correspond to clearing price(s) %v", a.ID, distributed, mstr(pub), cs))
+			}
 		}
 		flaggedOf := map[string]int{}
 		preBids := st.Pre.BidsOf(tr.ID)
@@ -76,24 +124,35 @@ func (m *monC16) Step(h *History, st *Step) []Violation {
 			if i < len(preBids) && preBids[i].Matched {
 				wasFlagged = true
 			}
-			eligible := r.Sold && b.PriceM.Cmp(r.PStarM) >= 0 && b.QtyAt(a.PayDenom, r.PStarM).Sign() > 0
-			alloc := zeroIfNil(r.Alloc[b.Bidder])
+			got := recv[b.Bidder]
+			eligible := pub.Sign() > 0 && b.PriceM.Cmp(pub) >= 0 && b.QtyAt(a.PayDenom, pub).Sign() > 0
 			if b.Matched {
 				flaggedOf[b.Bidder]++
-				if !eligible || alloc.Sign() == 0 {
+				if pub.Sign() > 0 && (!eligible || got.Sign() == 0) {
 					sig := "C16/flagged-but-received-nothing"
 					if i < len(preBids) && preBids[i].Matched {
 						sig = "C16/stale-provisional-flag"
 					}
-					vs = append(vs, viol(sig, "batch auction %d settled at %s: %s is flagged matched but could not receive coins (eligible=%v, bidder allocation %s)", a.ID, mOrNil(r.PStarM), b.Canon(), eligible, alloc))
+					vs = append(vs, viol(sig, "batch auction %d settled at %s: %s is flagged matched but could not receive coins (eligible=%v, its bidder received %s)", a.ID, mstr(pub), b.Canon(), eligible, got))
 				}
-			} else if eligible && !r.CapBinds[b.Bidder] {
-				vs = append(vs, viol("C16/received-but-not-flagged", "batch auction %d settled at %s: %s received coins (cap not binding) but is not flagged matched", a.ID, mstr(r.PStarM), b.Canon()))
+				if distributed.Sign() == 0 {
+					sig := "C16/flagged-but-received-nothing"
+					if i < len(preBids) && preBids[i].Matched {
+						sig = "C16/stale-provisional-flag"
+					}
+					vs = append(vs, viol(sig, "batch auction %d settled with nothing sold but %s is flagged matched", a.ID, b.Canon()))
+				}
+			} else if eligible {
+				// not flagged although eligible: fine only when the bidder's allowance ran out before this bid
+				_, _, _, _, asked := PayBounds(rec.Bids, b.Bidder, rec.PayDenom, pub, got)
+				if got.Cmp(asked) == 0 {
+					vs = append(vs, viol("C16/received-but-not-flagged", "batch auction %d settled at %s: %s received coins (its bidder got its whole demand %s) but is not flagged matched", a.ID, mstr(pub), b.Canon(), asked))
+				}
 			}
 		}
 		for _, bd := range r.Bidders {
-			if r.Alloc[bd].Sign() > 0 && flaggedOf[bd] == 0 {
-				vs = append(vs, viol("C16/winner-without-flag", "batch auction %d settled: %s received %s coins but none of its bids is flagged matched", a.ID, short(bd), r.Alloc[bd]))
+			if recv[bd].Sign() > 0 && flaggedOf[bd] == 0 {
+				vs = append(vs, viol("C16/winner-without-flag", "batch auction %d settled: %s received %s coins but none of its bids is flagged matched", a.ID, short(bd), recv[bd]))
 			}
 		}
 		if wasFlagged && len(a.EndTimes) > 1 {
@@ -378,3 +437,5 @@ func CfgC16() PropCfg {
 		Rule: "K: batch auctions driven through extended rounds with outbidding, cap changes and modifications between end times, plus fixed-price auctions. After the final settlement: flagged => priced >= clearing price with positive quantity and its bidder received coins; winner => >=1 flagged bid; eligible bid of a bidder whose cap does not bind => flagged; published matched price == reference clearing price (0 if nothing sold); instalment flagged released <=> its payment left the vesting escrow; flags never change after settlement. Queries (every 17th op, at settlements, at the end): Get* by existing and missing keys; ListAuction x status x type, ListBid x auction x bidder x matched, ListVestingQueue / ListAllowedBidder x auction, each traversed by key-based pages (limit 1/2/default) and by offset with count_total, compared with the model's filter of the snapshot in key order. Non-trivial = a bid provisionally matched at an earlier end time that is not in the final settlement.",
 	}
 }
+
+func preBidsOf(st *Step, id uint64) []*BidRec { return st.Pre.BidsOf(id) }
